@@ -148,7 +148,11 @@ def commitClosureOrder : Bool :=
   ordered Txn_commit [isCall nCommitMarkers, isCall nCommitUpdates, isCond cNothingChanged, isCall nIsSnapshotting,
     isCall nDstAppend, isCall nLoggerAppend, isCall nRangeWrite] &&
   cnt Txn_commit (isCall nDstAppend) == 1 && cnt Txn_commit (isCall nLoggerAppend) == 1 &&
-  cnt Txn_commit (isCall nCommitUpdates) == 1 && has Txn_commit (isDefer nReset)
+  cnt Txn_commit (isCall nCommitUpdates) == 1 && has Txn_commit (isDefer nReset) &&
+  -- recorder and logger appends sit directly under their presence test inside the closure (same nesting
+  -- as the marker pass): not in a loop, not batched behind a further condition
+  ((Txn_commit.find? (isCall nLoggerAppend)).map (·.1) == (Txn_commit.find? (isCall nCommitMarkers)).map (·.1)) &&
+  ((Txn_commit.find? (isCall nDstAppend)).map (·.1) == (Txn_commit.find? (isCall nCommitMarkers)).map (·.1))
 
 /-- column pass first, computed pass second (two `reader.Range` over the same buffer) -/
 def computedAfterColumn : Bool :=
